@@ -3,9 +3,10 @@
    Proofs/SbomProofs.v and followed by Print Assumptions.  The identifier
    alphabet is the regular expression goextract read from spdx.go on this run
    (Generated.Regexes.valid_id_chars_re). *)
-From Coq Require Import Permutation.
-From Apko Require Import Base.Prelude Base.Regex Generated.Regexes Model.Sbom Model.SbomRepair Spec.SbomSpec
-  Proofs.SbomProofs Proofs.SbomTwoTargets Proofs.SbomRepairProofs.
+From Coq Require Import Permutation Sorted.
+From Apko Require Import Base.Prelude Base.Regex Base.C01Lib Base.C11Lib Generated.Regexes Generated.C11Prov
+  Model.Sbom Model.SbomRepair Model.SbomLic Model.SbomProv Spec.SbomSpec Spec.SbomLicSpec Spec.SbomProvSpec
+  Proofs.SbomProofs Proofs.SbomTwoTargets Proofs.SbomRepairProofs Proofs.SbomLicProofs Proofs.SbomProvProofs.
 Open Scope string_scope. Open Scope list_scope.
 
 (* validIDCharsRe is `class+`: its matches are the maximal runs of bytes of one
@@ -255,6 +256,118 @@ Theorem c11_index_digests : forall x d, generate_index x = Ok d ->
 Proof. exact generate_index_digests. Qed.
 Print Assumptions c11_index_digests.
 
+(* ---- THE INPUTS OF THE GENERATOR ARE WHAT WAS BUILT (pkg/build/sbom.go) ---------------------------
+   Generated/C11Prov.v is what goextract traced in GenerateImageSBOM / GenerateIndexSBOM on this run:
+   for each input of the generator the expression it is assigned from.  Model/SbomProv.v interprets
+   those answers over a record of the built artifacts; the statements below compute with them, so an
+   edit of sbom.go that filters, reorders or replaces an input makes them unprovable. *)
+Theorem c11_provenance_read_from_source :
+  image_sbom_layers = PManifestLayers /\ image_sbom_packages = PInstalled /\
+  image_sbom_image_digest = PImageDigestString /\ image_sbom_os_version = PReleaseVersionID /\
+  image_sbom_vcs_url = PConfigVCSUrl /\ image_sbom_fs = PBuildFS /\
+  index_sbom_index_digest = PIndexDigest /\ index_sbom_archs = PAllMapKeys /\
+  index_sbom_order = SortByArchStringAsc /\ index_sbom_image_digest = PArchImageDigest /\
+  index_sbom_skips_none = true.
+Proof. repeat split; reflexivity. Qed.
+Print Assumptions c11_provenance_read_from_source.
+
+(* Generate receives the image's own digest, the layers of its manifest in order, the installed
+   database in order, VERSION_ID, the vcs url and the build filesystem: nothing else, nothing less *)
+Theorem c11_image_sbom_inputs : forall b, exists g, image_sbom_input b = Some g /\ InputsAreTheBuilt b g.
+Proof. intro b. exists (expected_input b). exact (conj (image_sbom_input_spec b) eq_refl). Qed.
+Print Assumptions c11_image_sbom_inputs.
+
+(* in particular every paragraph of the installed database reaches the generator whatever its
+   architecture field says (noarch, another architecture) *)
+Theorem c11_all_installed_handed_over : forall b g, image_sbom_input b = Some g -> AllInstalledHandedOver b g.
+Proof. exact all_installed_handed_over. Qed.
+Print Assumptions c11_all_installed_handed_over.
+
+(* the property's first sentence for the file apko writes next to the image: sbom-<arch>.spdx.json
+   describes the image by ITS digest (no hypothesis that a digest is known: a built image has one),
+   names every layer of ITS manifest, and has exactly one element per installed paragraph *)
+Theorem c11_built_image_described : forall perm b d, NoEmbedded (expected_input b) -> image_sbom perm b = Ok d ->
+  DescribesImage (hash_string (b_digest b)) d /\
+  (NoDup (ids (base_doc (expected_input b))) -> NamesLayers (b_layers b) d) /\
+  (NoDup (List.map p_id (own_elements (expected_input b))) ->
+     d_pkgs d = d_pkgs (base_doc (expected_input b)) ++ List.map (apk_package (nonce_of (expected_input b))) (List.map i_apk (b_installed b)) /\
+     MatchesInstalled (List.map i_apk (b_installed b)) (List.map (apk_package (nonce_of (expected_input b))) (List.map i_apk (b_installed b)))).
+Proof. exact built_image_described. Qed.
+Print Assumptions c11_built_image_described.
+
+Theorem c11_built_image_sound : forall perm b d, image_sbom perm b = Ok d ->
+  IdsUnique d /\ ((forall l, Permutation (perm l) l) -> SingleTarget (expected_input b) -> RefsResolve d).
+Proof. exact built_image_sound. Qed.
+Print Assumptions c11_built_image_sound.
+
+(* the index document is told the index digest and every image of the images map exactly once, in
+   the order of the architecture strings; Go's map iteration order [ord] does not matter *)
+Theorem c11_index_sbom_inputs : forall ord bi, (forall l, Permutation (ord l) l) ->
+  (exists x, index_sbom_input ord bi = Some x /\ IndexInputsAreTheBuilt bi x) /\
+  (NoDup (List.map fst (bi_images bi)) -> index_sbom_input ord bi = Some (expected_index_input bi)).
+Proof. intros ord bi P. exact (conj (index_sbom_input_spec ord bi P) (index_sbom_input_order_independent ord bi P)). Qed.
+Print Assumptions c11_index_sbom_inputs.
+
+Theorem c11_built_index_described : forall ord bi d, (forall l, Permutation (ord l) l) -> index_sbom ord bi = Ok d ->
+  RefsResolve d /\
+  (exists p, In p (d_pkgs d) /\ p_name p = hash_string (bi_digest bi) /\
+             p_sums p = [("SHA256", snd (bi_digest bi))] /\ d_desc d = [p_id p]) /\
+  (forall a h, In (a, h) (bi_images bi) -> exists p, In p (d_pkgs d) /\ p_sums p = [("SHA256", snd h)] /\
+     In {| r_elem := p_id (index_package (bi_digest bi)); r_type := "VARIANT_OF"; r_related := p_id p |} (d_rels d)).
+Proof. exact built_index_described. Qed.
+Print Assumptions c11_built_index_described.
+
+(* ---- EXTRACTED LICENSING INFOS (mergeLicensingInfos) ----------------------------------------------- *)
+(* one merge: the result is the union keyed by id, target first; it keeps the target untouched as a
+   prefix, appends only source infos whose id is new, once per id, and contains EVERY source info with
+   its text; distinct ids stay distinct *)
+Theorem c11_licensing_merge_union : forall src tgt out, merge_licensing src tgt = Ok out ->
+  LicUnion src tgt out /\ (NoDup (lic_ids tgt) -> NoDup (lic_ids out)).
+Proof. intros src tgt out H. pose proof (merge_ok_union src tgt out H) as U. exact (conj U (lic_union_nodup src tgt out U)). Qed.
+Print Assumptions c11_licensing_merge_union.
+
+(* it fails only on a conflict (same id, another text), never otherwise, and it never panics *)
+Theorem c11_licensing_merge_fails_only_on_conflict : forall src tgt,
+  ((exists out, merge_licensing src tgt = Ok out) \/ merge_licensing src tgt = Err) /\
+  (merge_licensing src tgt = Err -> exists s t, In s src /\ In t (tgt ++ src) /\ l_id t = l_id s /\ l_text t <> l_text s) /\
+  (Consistent (tgt ++ src) -> exists out, merge_licensing src tgt = Ok out).
+Proof. intros src tgt. exact (conj (merge_total src tgt) (conj (merge_err_conflict src tgt) (merge_consistent_ok src tgt))). Qed.
+Print Assumptions c11_licensing_merge_fails_only_on_conflict.
+
+(* Generate: the licensing infos of the emitted document are exactly those of the embedded
+   documents it used, every one of them with its text, ids pairwise distinct *)
+Theorem c11_licensing_preserved : forall perm g lfs d l, generate_full perm g lfs = Ok (d, l) ->
+  generate perm g = Ok d /\ LicPreserved (used_lists (g_fs g) lfs (g_apks g)) l.
+Proof. exact generate_full_ok. Qed.
+Print Assumptions c11_licensing_preserved.
+
+(* no licence id that the embedded document of an installed apk defines is lost *)
+Theorem c11_licensing_no_reference_lost : forall perm g lfs d l a refs, generate_full perm g lfs = Ok (d, l) ->
+  In a (g_apks g) -> incl refs (lic_ids (used_lics (g_fs g) lfs a)) -> incl refs (lic_ids l).
+Proof. exact generate_full_no_reference_lost. Qed.
+Print Assumptions c11_licensing_no_reference_lost.
+
+(* when the document itself can be generated, adding the licensing infos fails exactly when two
+   used documents (or one document) give one id two texts; and never for lack of fuel *)
+Theorem c11_licensing_fails_iff_conflict : forall perm g lfs,
+  generate_full perm g lfs <> OutOfFuel /\
+  forall d, generate perm g = Ok d ->
+    ((exists l, generate_full perm g lfs = Ok (d, l)) <-> Consistent (List.concat (used_lists (g_fs g) lfs (g_apks g)))).
+Proof. intros perm g lfs. exact (conj (generate_full_fuel perm g lfs) (generate_full_iff_consistent perm g lfs)). Qed.
+Print Assumptions c11_licensing_fails_iff_conflict.
+
+(* the document whose infos are merged is the one Spec/SbomSpec.v's envelopes speak of *)
+Theorem c11_licensing_used_is_located : forall fs a, (exists k, used_key fs a = Some k) <-> (exists e, located_in fs a = Some e).
+Proof. exact used_key_located. Qed.
+Print Assumptions c11_licensing_used_is_located.
+
+Theorem c11_licensing_validators_decide : forall src tgt out used l,
+  (lic_union_b src tgt out = true <-> LicUnion src tgt out) /\
+  (lic_preserved_b used out = true <-> LicPreserved used out) /\
+  (consistent_b l = true <-> Consistent l).
+Proof. intros. exact (conj (lic_union_b_iff src tgt out) (conj (lic_preserved_b_iff used out) (consistent_b_iff l))). Qed.
+Print Assumptions c11_licensing_validators_decide.
+
 (* non-vacuity: a two-layer image with a source url and two installed apks meets
    every hypothesis above and yields the expected six elements *)
 Definition ex_g : gen_in :=
@@ -296,3 +409,17 @@ Proof.
   split; [eexists; eexists; split; [right; left; reflexivity | split; vm_compute; reflexivity]|].
   eexists. split; [vm_compute; reflexivity | apply refs_resolve_b_iff; vm_compute; reflexivity].
 Qed.
+
+(* non-vacuity of the provenance theorems: a build with a noarch and a foreign-architecture
+   paragraph; a two-image index handed over in the "wrong" map order *)
+Example c11_example_built : NoEmbedded (expected_input ex_built) /\ NoDup (List.map p_id (own_elements (expected_input ex_built))) /\
+  exists d, image_sbom (fun l => l) ex_built = Ok d /\ List.map p_name (d_pkgs d) = ["sha256:ab"; "sha256:c1"; "sha256:c2"; "musl"; "tzdata"; "cross-stub"].
+Proof. exact ex_built_ok. Qed.
+Example c11_example_built_index : NoDup (List.map fst (bi_images ex_built_index)) /\
+  x_images (expected_index_input ex_built_index) = [("sha256", "a1"); ("sha256", "a2")] /\
+  exists d, index_sbom (@rev _) ex_built_index = Ok d.
+Proof. exact ex_built_index_ok. Qed.
+(* ... and of the licensing theorems: two documents sharing two infos; a conflict *)
+Example c11_example_licensing : (exists d, generate_full (fun l => l) lic_g [("foo-1.0.spdx.json", [lic_mit; lic_bsd]); ("bar.spdx.json", [lic_bsd; lic_mit])] = Ok (d, [lic_mit; lic_bsd])) /\
+  generate_full (fun l => l) lic_g [("foo-1.0.spdx.json", [lic_mit]); ("bar.spdx.json", [lic_bsd; lic_mit'])] = Err.
+Proof. exact (conj lic_example (proj1 lic_example_conflict)). Qed.
